@@ -112,6 +112,12 @@ def execute(scn):
             bump("empty_window")
         if e["fails"]:
             bump("direct_call_raises")
+    if tbl.get("names"):
+        bump("custom_axis_names")
+    if any(c.get("region") for c in cfg["contexts"]):
+        bump("context_with_region")
+    if tbl.get("xr_time") == "var":
+        bump("time_is_data_variable")
     reps = rp.build_replicas(scn, shared)
     sch = rp.run_replicas(scn, reps)
     if sch.timeout:
